@@ -270,7 +270,7 @@ func init() {
 		ID:    "C06",
 		Level: "exploration",
 		Rule: "each case grows a random block tree through the real cache objects: new blocks (extending a tip, forking from an old block, or on a parent the cache never saw = gap), transactions per block, set/remove in transactions and block caches, transaction commits, " +
-			"abandoned transactions and blocks, block caches that get their hash only right before the commit (SetBlockHash), block commits (parent first; a quarter of the trees also out of order), a second commit of an already committed block hash with different writes (must be ignored), and lookups through StateCache.Get, QueryBlockCache, BlockCache.Get and TransactionCache.Get at tips, old blocks, siblings and unknown hashes, also through the retained block/transaction cache objects of blocks that have been committed (own committed writes first, own never-committed transaction writes before those; writes made into such an object after the commit stay private to it and come first there; a block cache whose commit was refused as a duplicate keeps its own writes), " +
+			"abandoned transactions and blocks, block caches that get their hash only right before the commit (SetBlockHash), block commits (parent first; a quarter of the trees also out of order), a second commit of an already committed block hash with different writes (must be ignored), and lookups through StateCache.Get, QueryBlockCache, BlockCache.Get and TransactionCache.Get at tips, old blocks, siblings and unknown hashes, also through the retained block/transaction cache objects of blocks that have been committed (own committed writes first, own never-committed transaction writes before those; writes and removals made into such an object after the commit stay private to it and come first there, also after the object is committed a second time (which must change nothing); a block cache whose commit was refused as a duplicate keeps its own writes), " +
 			"each compared with the harness' own block-tree model (unique token per write: a wrong hit names the block it leaked from); a final sweep reads every (key, block). Cases 0-3 are hot-key chains (one key written in most of 260..2600 blocks with an old block kept recent). " +
 			"non-trivial = tree with at least one fork and three committed blocks; distinct by trace hash",
 		Cases: func(tier string) int {
@@ -280,7 +280,7 @@ func init() {
 			return 96000
 		},
 		Run: runC06,
-		Floors: map[string]int64{"lookups_through_caches_of_committed_blocks": 200000, "late_writes_into_committed_block_caches": 30000, "trees": 80000, "lookups": 5000000, "hits": 100000, "misses": 100000, "forks": 10000, "gaps": 1000, "removals": 10000, "trees_with_out_of_order_commits": 1000,
+		Floors: map[string]int64{"lookups_through_caches_of_committed_blocks": 200000, "late_writes_into_committed_block_caches": 30000, "late_removals_into_committed_block_caches": 3000, "repeated_commits_of_a_committed_block_cache": 8000, "trees": 80000, "lookups": 5000000, "hits": 100000, "misses": 100000, "forks": 10000, "gaps": 1000, "removals": 10000, "trees_with_out_of_order_commits": 1000,
 			"hot_key_chains": 4, "max:versions_of_one_key": 201, "duplicate_commits": 5000, "late_block_hashes": 20000},
 		Assumptions: []string{
 			"uncommitted blocks on a chain are skipped by the model (their writes are private), so the legal set is {miss, nearest committed write}",
@@ -301,7 +301,7 @@ func init() {
 			return 64000
 		},
 		Run:    runC07,
-		Floors: map[string]int64{"lookups_through_caches_of_committed_blocks": 100000, "late_writes_into_committed_block_caches": 20000, "trees": 50000, "lookups": 3000000, "hits": 100000, "misses": 50000, "removals": 5000, "abandoned": 5000, "must_hit_assertions": 500000},
+		Floors: map[string]int64{"lookups_through_caches_of_committed_blocks": 100000, "late_writes_into_committed_block_caches": 20000, "late_removals_into_committed_block_caches": 2000, "repeated_commits_of_a_committed_block_cache": 5000, "trees": 50000, "lookups": 3000000, "hits": 100000, "misses": 50000, "removals": 5000, "abandoned": 5000, "must_hit_assertions": 500000},
 		Assumptions: []string{
 			"must-hit assertions only within capacity (see rule); elsewhere miss-or-right-value",
 		},
